@@ -116,6 +116,7 @@ type UnpackCase struct {
 	Entries []tarx.Entry `json:"entries"`
 	Only    int          `json:"only"`
 	Chunk   int          `json:"chunk"` // reader hands out at most this many bytes per Read (0 = unlimited)
+	Split   int          `json:"split,omitempty"` // the slug is a gzip stream of two members, cut in front of this entry
 }
 
 var subUnpackReader = ev.Register("unpackreader", checkUnpackReader)
@@ -138,7 +139,7 @@ func snapshotNoCtime(dir string, explicitDirs map[string]bool) (map[string]fsx.E
 func checkUnpackReader(c UnpackCase) error {
 	r, cleanup := fsx.Scratch("c12b-")
 	defer cleanup()
-	data, err := tarx.Build(c.Entries, nil)
+	data, err := tarx.BuildSplit(c.Entries, nil, c.Split)
 	if err != nil {
 		ev.Label("archive-not-buildable")
 		return nil
@@ -158,6 +159,12 @@ func checkUnpackReader(c UnpackCase) error {
 	want, err := snapshotNoCtime(full, explicit)
 	if err != nil {
 		return fmt.Errorf("harness: %v", err)
+	}
+	// the complete archive, unpacked without complaint, is there in full: every entry of it has its path
+	for _, e := range c.Entries {
+		if _, ok := want[strings.Trim(e.Name, "/")]; !ok {
+			return fmt.Errorf("Unpack of the complete archive returned nil, but the entry %q (%s) is not in the destination: success without the whole archive", e.Name, e.Type)
+		}
 	}
 	h := ev.Hash(c)
 	lo, hi := 0, len(data)
@@ -192,6 +199,13 @@ func checkUnpackReader(c UnpackCase) error {
 					return fmt.Errorf("harness: %v", err)
 				}
 				if d := fsx.Diff(want, got, "mode size mtime target sum"); len(d) > 0 {
+					if _, derr := tarx.Decode(data[:k]); truncate && derr == nil {
+						// the bytes up to here are a well-formed slug of their own (the stream was cut exactly
+						// between two gzip members, at a tar entry boundary): nothing tells it from a shorter archive
+						ev.Label("truncation-leaves-a-well-formed-shorter-slug")
+						fsx.RemoveAll(dst)
+						continue
+					}
 					if len(d) > 4 {
 						d = d[:4]
 					}
@@ -234,7 +248,11 @@ func genBenignEntries(t *rapid.T) []tarx.Entry {
 
 func TestPropUnpackReader(t *testing.T) {
 	ev.Check(t, subUnpackReader, func(t *rapid.T) UnpackCase {
-		return UnpackCase{Entries: genBenignEntries(t), Only: -1, Chunk: rapid.SampledFrom([]int{0, 0, 1, 7, 512}).Draw(t, "chunk")}
+		c := UnpackCase{Entries: genBenignEntries(t), Only: -1, Chunk: rapid.SampledFrom([]int{0, 0, 1, 7, 512}).Draw(t, "chunk")}
+		if len(c.Entries) > 1 && rapid.IntRange(0, 3).Draw(t, "split?") == 0 {
+			c.Split = rapid.IntRange(1, len(c.Entries)-1).Draw(t, "split")
+		}
+		return c
 	})
 }
 
